@@ -1,2 +1,4 @@
 /* tiny test library A for the C19 dl histories */
 int vf_value(void) { return 11; }
+/* an exported absolute symbol with the value 0: dlsym() yields NULL without an error */
+__asm__(".globl vf_null_sym\n.set vf_null_sym, 0\n");
